@@ -11,7 +11,8 @@
 (* where it is not allowed and must be rejected with ParsingError.         *)
 (***************************************************************************)
 EXTENDS Naturals, Sequences, FiniteSets, TLC, Json
-CONSTANTS Depth, Width, Emit
+CONSTANTS Depth, Width, Emit,
+          Tops        \* the top forms to use; {} = all of them
 
 Atoms == { "a", "b" }
 Keys == { "k", "m" }
@@ -82,7 +83,7 @@ Denote(d) ==
 
 VARIABLES opt, datum, fin, bad, phase
 vars == <<opt, datum, fin, bad, phase>>
-Init == /\ opt \in { o \in Opts : OptsOK(o) } /\ datum = Atom("a") /\ fin = FALSE /\ bad = FALSE /\ phase = "opt"
+Init == /\ opt \in { o \in Opts : OptsOK(o) /\ (Tops = {} \/ o.top \in Tops) } /\ datum = Atom("a") /\ fin = FALSE /\ bad = FALSE /\ phase = "opt"
 Choose == /\ phase = "opt" /\ phase' = "done"
           /\ \E d \in Data(Depth) : \E f \in BOOLEAN : \E b \in BOOLEAN :
                /\ Fits(d, opt) /\ ~(f /\ b)
